@@ -188,13 +188,13 @@ Print Assumptions unknown_kinds_always_run.
 Theorem exactly_once_for_every_honest_container : forall mw iv bd sh n sched, honest sh ->
   let s := run (container_cfg mw iv bd sh) (init n) sched in
   Permutation (accepted s) (done_tasks s ++ places s).
-Proof. intros mw iv bd sh n sched H. apply exactly_once, ProofsC.faithful_iff_honest, H. Qed.
+Proof. exact honest_exactly_once. Qed.
 Print Assumptions exactly_once_for_every_honest_container.
 
 (* the Bulk / Chunk executors and the sqlx bulk inserter: slices, nil when nothing was added *)
 Theorem slice_containers_faithful : forall mw iv bd,
   faithful (container_cfg mw iv bd slice_shape) /\ (forall h, has_tasks (slice_shape h) = nonempty h).
-Proof. intros. split; [apply ProofsC.faithful_iff_honest, slice_honest | exact slice_runs]. Qed.
+Proof. exact slice_faithful. Qed.
 Print Assumptions slice_containers_faithful.
 
 (* every container of the family the correspondence run drives the executor with
